@@ -471,7 +471,7 @@ EVAL = {"order": eval_order_case, "gradgrid": eval_gradgrid_case, "twin": eval_t
 def run(ctx, drv):
     import time
     t0 = time.time()
-    order = gen_order_cases(ctx.rng.fork(700000), ctx.n(12, 1500))
+    order = gen_order_cases(ctx.rng.fork(700000), ctx.n(40, 1500))
     for c in order:
         eval_order_case(ctx, drv, c)
     ff = fixed_formula_cases()
@@ -480,10 +480,10 @@ def run(ctx, drv):
     fits = fixed_fit_cases()
     for c in fits:
         base.eval_fit_case(ctx, drv, c)
-    gg = gradgrid_cases(ctx.rng.fork(710000), ctx.n(6, 400))
+    gg = gradgrid_cases(ctx.rng.fork(710000), ctx.n(20, 400))
     for c in gg:
         eval_gradgrid_case(ctx, drv, c)
-    tw = twin_cases(ctx.rng.fork(720000), ctx.n(12, 600))
+    tw = twin_cases(ctx.rng.fork(720000), ctx.n(40, 600))
     for c in tw:
         eval_twin_case(ctx, drv, c)
     ctx.extra.setdefault("case_counts", {}).update({"order": len(order), "formula_fixed_g6": len(ff), "fit_fixed_g6": len(fits),
